@@ -148,8 +148,8 @@ fn corpus(o: &mut O, rng: &mut Rng, prop: u8, accept: &Expect) {
 pub fn c01(o: &mut O, tier: &str, rng: &mut Rng) {
     let n = match tier {
         "quick" => 8,
-        "thorough" => 200,
-        _ => 120,
+        "thorough" => 32,
+        _ => 20,
     };
     let accept = Expect {
         accept: true,
@@ -214,7 +214,7 @@ pub fn c01(o: &mut O, tier: &str, rng: &mut Rng) {
         };
         // --- signature mutations: every hex digit -> another digit of the same class and the
         // other letter case; truncations, extensions, empty
-        let positions: Vec<usize> = if tier == "quick" && i != 0 { vec![0, 1, 31, 32, 62, 63, rng.below(64) as usize] } else { (0..64).collect() };
+        let positions: Vec<usize> = if (tier == "quick" && i != 0) || (tier != "quick" && i % 8 != 0) { vec![0, 1, 31, 32, 62, 63, rng.below(64) as usize] } else { (0..64).collect() };
         for pos in positions {
             let c = sig.as_bytes()[pos];
             let other = if c.is_ascii_digit() { if c == b'9' { b'0' } else { c + 1 } } else if c == b'f' { b'a' } else { c + 1 };
